@@ -266,27 +266,27 @@ theorem step_fresh (tbl : ClassTable) (hf : tbl.Faithful) (pol : Policy) (w : Wo
         rw [hb.cur]
         exact ⟨⟨r.1, hep⟩, r.2.1⟩
       | _ => simp [isEvalOp] at hev
-  | setAttr a c =>
+  | setAttr a k c =>
     simp only [Impl.step, Spec.step, hb.vars, hb.g]
     cases ha : ss.vars[a]? with
     | none => exact ⟨hs, rfl⟩
     | some n =>
       dsimp only
-      cases hg' : setAttrG ss.g n c with
+      cases hg'' : setAttrK ss.g n k c with
       | none => exact ⟨hs, rfl⟩
       | some g' =>
-        have hsh := setAttrG_sameShape hg'
+        have hsh := setAttrG_sameShape (setAttrK_some hg'')
         exact ⟨⟨⟨rfl, hb.vars, hb.cur, fun z hz => hasRep_sameShape hsh (hb.repV z hz), hasRep_sameShape hsh hb.repC⟩, hep⟩, rfl⟩
-  | editParam a c =>
+  | editParam a k c =>
     simp only [Impl.step, Spec.step, hb.vars, hb.g]
     cases ha : ss.vars[a]? with
     | none => exact ⟨hs, rfl⟩
     | some n =>
       dsimp only
-      cases hg' : editParamG ss.g n c with
+      cases hg'' : editParamK ss.g n k c with
       | none => exact ⟨hs, rfl⟩
       | some g' =>
-        have hsh := editParamG_sameShape hg'
+        have hsh := editParamG_sameShape (editParamK_some hg'')
         exact ⟨⟨⟨rfl, hb.vars, hb.cur, fun z hz => hasRep_sameShape hsh (hb.repV z hz), hasRep_sameShape hsh hb.repC⟩, hep⟩, rfl⟩
   | dataMut m d =>
     simp only [Impl.step, Spec.step]
@@ -395,30 +395,32 @@ theorem step_coherent (tbl : ClassTable) (hf : tbl.Faithful) (pol : Policy) (hp 
         have hx : HasRep st.s.h.g st.s.cur := by rw [hb.g, hb.cur]; exact hb.repC
         exact cacheCoherent_observe hx hc
       | _ => simp [isEvalOp] at hev
-  | setAttr a c =>
+  | setAttr a k c =>
     simp only [Impl.step]
     cases ha : st.s.vars[a]? with
     | none => exact hc
     | some n =>
       dsimp only
-      cases hg' : setAttrG st.s.h.g n c with
+      cases hg'' : setAttrK st.s.h.g n k c with
       | none => exact hc
       | some g' =>
+        have hg' := setAttrK_some hg''
         simp only [mutationUnseen, ha, List.all_eq_true] at hu
         intro x hx
         obtain ⟨e, m, hr, harr, hd⟩ := hc x hx
         have hnr := hu x hx
         refine ⟨e, m, ?_, harr, hd⟩
         exact Rep.setAttr_frame hg' e _ _ hr (by simpa using hnr)
-  | editParam a c =>
+  | editParam a k c =>
     simp only [Impl.step]
     cases ha : st.s.vars[a]? with
     | none => exact hc
     | some n =>
       dsimp only
-      cases hg' : editParamG st.s.h.g n c with
+      cases hg'' : editParamK st.s.h.g n k c with
       | none => exact hc
       | some g' =>
+        have hg' := editParamK_some hg''
         simp only [editParamG] at hg'
         split at hg'
         · rename_i k0 p0 hn0
